@@ -11,6 +11,8 @@ class DBSchema(object):
     dialect = None
     inline_fk_syntax = True
     named_foreign_keys = True
+    case_insensitive_names = False  # the database ignores letter case of column, index and constraint names
+    case_insensitive_table_names = False
     def __init__(schema, provider, uppercase=True):
         schema.provider = provider
         schema.tables = {}
@@ -33,6 +35,11 @@ class DBSchema(object):
             if len(part) > max_len: throw(DBSchemaError,
                 '%s name %r is too long: it has %d characters, the maximum name length for the database is %d'
                 % (typename, part, len(part), max_len))
+    def name_key(schema, name, is_table=False):
+        # names which are the same for the database should not be registered in the schema as different ones
+        if not (schema.case_insensitive_table_names if is_table else schema.case_insensitive_names): return name
+        if isinstance(name, str): return name.lower()
+        return tuple(part.lower() for part in name)
     def add_table(schema, table_name, entity=None):
         return schema.table_class(table_name, schema, entity)
     def order_tables_to_create(schema):
@@ -96,11 +103,11 @@ class Table(DBObject):
     def __init__(table, name, schema, entity=None):
         if name in schema.tables:
             throw(DBSchemaError, "Table %r already exists in database schema" % name)
-        if name in schema.names:
+        if schema.name_key(name, is_table=True) in schema.names:
             throw(DBSchemaError, "Table %r cannot be created, name is already in use" % name)
         schema.check_name_length(table.typename, name)
         schema.tables[name] = table
-        schema.names[name] = table
+        schema.names[schema.name_key(name, is_table=True)] = table
         table.schema = schema
         table.name = name
         table.column_list = []
@@ -218,6 +225,11 @@ class Column(object):
     def __init__(column, name, table, sql_type, converter, is_not_null=None, sql_default=None):
         if name in table.column_dict:
             throw(DBSchemaError, "Column %r already exists in table %r" % (name, table.name))
+        name_key = table.schema.name_key
+        for other in table.column_list:
+            if name_key(other.name) == name_key(name): throw(DBSchemaError,
+                "Column %r cannot be added to table %r: it differs from column %r only in letter case, "
+                "which the database ignores" % (name, table.name, other.name))
         table.schema.check_name_length('Column', name)
         table.column_dict[name] = column
         table.column_list.append(column)
@@ -272,11 +284,11 @@ class Column(object):
 class Constraint(DBObject):
     def __init__(constraint, name, schema):
         if name is not None:
-            assert name not in schema.names
+            assert schema.name_key(name) not in schema.names
             if name in schema.constraints: throw(DBSchemaError,
                 "Constraint with name %r already exists" % name)
             schema.check_name_length(constraint.typename, name)
-            schema.names[name] = constraint
+            schema.names[schema.name_key(name)] = constraint
             schema.constraints[name] = constraint
         constraint.schema = schema
         constraint.name = name
@@ -301,7 +313,7 @@ class DBIndex(Constraint):
                 "Incompatible combination of is_unique=False and is_pk=True")
         elif is_unique is None: is_unique = False
         schema = table.schema
-        if name is not None and name in schema.names:
+        if name is not None and schema.name_key(name) in schema.names:
             throw(DBSchemaError, 'Index %s cannot be created, name is already in use' % name)
         Constraint.__init__(index, name, schema)
         for column in columns:
@@ -367,7 +379,7 @@ class ForeignKey(Constraint):
         if child_columns in child_table.foreign_keys:
             if len(child_columns) == 1: throw(DBSchemaError, 'Foreign key for column %r already defined' % child_columns[0].name)
             else: throw(DBSchemaError, 'Foreign key for columns (%s) already defined' % ', '.join(repr(column.name) for column in child_columns))
-        if name is not None and name in schema.names:
+        if name is not None and schema.name_key(name) in schema.names:
             throw(DBSchemaError, 'Foreign key %s cannot be created, name is already in use' % name)
         Constraint.__init__(foreign_key, name, schema)
         child_table.foreign_keys[child_columns] = foreign_key
